@@ -18,18 +18,17 @@
      the argument width plus the extension (what the constructor computes);
      stage 4: Select Store ArrayValue and Equals on arrays (proofs/SimplifierSemArr_proofs.v).
      Array VALUES of the fragment are in the canonical form of the constructor Array() and of the
-     model ([arr_node_ok]): the index sort is not an array sort, not Real and not Bool / BV, the
-     element sort (the sort of the default) is not Real, the indices are constants of Int /
-     String sort, strictly increasing in the model's order of index constants (Ctors.const_key;
-     the implementation keeps a dict, the model and the harness keep this order), and no assigned
+     model ([arr_node_ok]): the index sort is not an array sort and not Real, the element sort
+     (the sort of the default) is not Real, the indices are constants of Bool / Int / BV / String
+     sort, strictly increasing in the model's order of index constants (Ctors.const_key; the
+     implementation keeps a dict, the model and the harness keep this order), and no assigned
      value is syntactically the default.  (Real is excluded because the rules compare index
      constants syntactically, which is right only for Real constants in lowest terms, and
-     [in_frag] does not ask that of Real constants.  Bool / BV index sorts are excluded since
-     walk_equals decides the equality of two constant array values extensionally: over a finite
-     index sort two values whose assigned indices cover the sort are equal whatever their
-     defaults - right in SMT-LIB, but core/Sem.v compares array values at every key, also at
-     keys outside the index sort, where the defaults show.  The model handles these sorts and
-     the harness checks them against the extensional reference evaluator.)  Array-sorted
+     [in_frag] does not ask that of Real constants.)  walk_equals decides the equality of two
+     constant array values extensionally (const_eqb_sound): over Bool / BV(w) two values whose
+     assigned indices cover the sort are equal whatever their defaults - core/Sem.v's array
+     values are canonical outside their index sort, so this is Leibniz equality there too (a
+     counting argument over the keys of the sort).  Array-sorted
      symbols, Select, Store, Ite, Equals on arrays are unrestricted;
      stage 5: the string operators length concat contains indexof replace substr prefixof
      suffixof to_int from_int charat (proofs/SimplifierSemStr_proofs.v), with the arities of the
